@@ -90,3 +90,70 @@ func runW1Model(r *Result, dp *DriverPool, cs w1Case) {
 			fmt.Sprintf("the Lean model of the classic writer predicts a different stream (%d bytes real, model %s...)", buf.Len(), truncate(parts[1], 40)))
 	}
 }
+
+// runW1Auto: the Lean classic-writer model with its own match finder model (HashTable4 / BinaryTree) computes the stream
+// from the call history alone; it must equal the real lzma.Writer's results call by call and its stream byte for byte.
+func runW1Auto(r *Result, dp *DriverPool, cs w1Case) {
+	c := cs.Cfg
+	tot := 0
+	for _, h := range cs.Writes {
+		tot += len(h) / 2
+	}
+	if c.DictCap > 8192 || tot > 30000 || (c.Matcher == 1 && tot > 9000) {
+		return // the Lean state is copied once per proposal: small configurations only
+	}
+	var buf bytes.Buffer
+	w, err := c.config().NewWriter(&buf)
+	if err != nil {
+		return
+	}
+	var goCalls, calls []string
+	failed := false
+	for _, h := range cs.Writes {
+		p := unhxe(h)
+		res := guard(func() (int, error) { return w.Write(p) })
+		goCalls = append(goCalls, fmt.Sprintf("%d:%s", res.N, w1Err(res)))
+		calls = append(calls, "W"+hxe(p))
+		if e := w1Err(res); e != "ok" && e != "nospace" {
+			failed = true
+			break
+		}
+	}
+	closed := false
+	if !failed {
+		res := guard(func() (int, error) { return 0, w.Close() })
+		goCalls = append(goCalls, fmt.Sprintf("0:%s", w1Err(res)))
+		calls = append(calls, "C")
+		closed = res.Err == "nil"
+	}
+	rep, err := dp.Ask(fmt.Sprintf("w1auto %d %d %d %d %d %d %d %s", c.Matcher, (c.PB*5+c.LP)*9+c.LC, c.DictCap, c.BufSize, b2i(c.SizeInHeader), c.Size, b2i(c.EOSMarker), strings.Join(calls, " ")))
+	if err != nil {
+		r.Violate("broken-correspondence", "driver", cs, err.Error())
+		return
+	}
+	parts := strings.Split(rep, " | ")
+	if len(parts) != 2 {
+		r.Violate("broken-correspondence", "writer1-auto: bad driver reply", cs, truncate(rep, 200))
+		return
+	}
+	r.mu.Lock()
+	r.TracesVsImpl++
+	r.mu.Unlock()
+	r.Inc(fmt.Sprintf("writer1_auto_histories_matcher%d", c.Matcher))
+	m := strings.Fields(parts[0])
+	for i, g := range goCalls {
+		if i >= len(m) || m[i] != g {
+			got := "<none>"
+			if i < len(m) {
+				got = m[i]
+			}
+			r.Violate("broken-correspondence", fmt.Sprintf("writer1-auto call result (Lean match finder model %d)", c.Matcher), cs,
+				fmt.Sprintf("call %d: the real lzma.Writer returned n:err = %s, the Lean classic-writer model computing its own proposals says %s", i, g, got))
+			return
+		}
+	}
+	if closed && parts[1] != hxe(buf.Bytes()) {
+		r.Violate("broken-correspondence", fmt.Sprintf("writer1-auto stream bytes (Lean match finder model %d)", c.Matcher), cs,
+			fmt.Sprintf("the Lean classic-writer model with its own match finder model produces a different stream (%d bytes real)", buf.Len()))
+	}
+}
